@@ -52,8 +52,9 @@ Heap0 == [FreshHeap EXCEPT ![FontDirId] = [k |-> "dict", m |-> ("zz" :> DictV(PD
 \* ---- value pool (a sequence: mixed records are never put into a set)
 Ints == << IntN(0), IntN(1), IntN(-1), IntN(2), IntN(4), IntN(255), IntN(256),
            IntV(MaxInt64), IntV(MinInt64), IntV(P(31)), IntV(P(53)), IntV(InternalPass),
-           IntV(Add(P(53), One)), IntV(Neg(P(53))), IntV(Sub(MaxInt64, One)), IntV(Add(MinInt64, One)),
-           IntN(65536), IntN(65537), IntN(7), IntN(100), IntN(3), IntV(Sub(Neg(P(53)), One)),
+           IntN(3), IntV(Add(P(53), One)),      \* a count that is not a power of two; the first integer float64 cannot hold
+           IntV(Neg(P(53))), IntV(Sub(MaxInt64, One)), IntV(Add(MinInt64, One)),
+           IntN(65536), IntN(65537), IntN(7), IntN(100), IntV(Sub(Neg(P(53)), One)),
            IntV(Neg(P(31))), IntV(P(62)), IntN(-2) >>
 Reals == << RealV([n |-> BI(1), e |-> -1]), RealV([n |-> BI(-1), e |-> -1]), RealV(DZero),
             RealV([n |-> BI(3), e |-> -1]), RealV([n |-> BI(1), e |-> 53]), RealV([n |-> BI(1), e |-> 63]),
@@ -71,7 +72,7 @@ Others == << NameV("a"), NameV("zz"), NameV("abc"), XNameV("add"), BoolV(TRUE), 
 
 \* quick: a core selection of each class; thorough: everything
 Sel(s, k) == IF Tier = "quick" /\ Len(s) > k THEN SubSeq(s, 1, k) ELSE s
-Pool == Sel(Ints, 12) \o Sel(Reals, 4) \o Sel(Views, 11) \o Sel(Dicts, 8) \o Sel(Procs, 2) \o Sel(Others, 12)
+Pool == Sel(Ints, 14) \o Sel(Reals, 4) \o Sel(Views, 11) \o Sel(Dicts, 8) \o Sel(Procs, 2) \o Sel(Others, 12)
 NP == Len(Pool)
 \* reduced pool for the leading positions of long operand tuples
 PoolS == << IntN(0), IntN(1), IntN(2), IntV(MaxInt64), IntN(-1), ArrV(PA4, 0, 4), ArrV(PA4, 1, 2),
@@ -94,7 +95,8 @@ OpArity(op) == CASE op \in {"mark", "[", "<<", "count", "currentdict", "currentf
                [] op = "ifelse" -> 3
                [] op = "for" -> 4
                [] op \in CIDInitOps -> (IF \E k \in Kinds : op = "begin" \o k THEN 1 ELSE 3)
-               [] OTHER -> 4      \* roll, >>
+               [] op = "roll" -> 5     \* a window of three below n and j
+               [] OTHER -> 4      \* >>
 
 OpSel == IF OpSet = "data" THEN DataOps ELSE AllOps \cup CIDInitOps
 
@@ -107,6 +109,7 @@ MaxLen(op) == IF OpArity(op) < 2 THEN 2 ELSE OpArity(op)
 Cands(op, L, p) ==
     IF L - p < 2 /\ L <= OpArity(op) THEN 1..NP            \* one of the two topmost operands
     ELSE IF L - p < 1 THEN {1, 2}                         \* junk above a complete operand list
+    ELSE IF op = "roll" /\ L = 5 THEN {-1, -2, -6}           \* 0, 1 and an array: enough to tell the rotations apart
     ELSE {0 - i : i \in 1..NS}
 Val(x) == IF x < 0 THEN PoolS[0 - x] ELSE Pool[x]
 
